@@ -8,6 +8,8 @@ import warnings
 
 import numpy as np
 
+from hyverif.core import digest
+
 ID = "C10"
 SHARDS = {"quick": 8, "thorough": 16}
 BUDGET = {"quick": 300, "thorough": 1800}
@@ -215,6 +217,9 @@ def run_dscore_case(ctx, case, rng=None):
         ctx.check("dscore.monotone-sim", abs(Ds - D) <= 1e-12,
                   f"dscore|monotone-map-sim", case,
                   lambda: {"map": nm, "D": D, "mapped": Ds})
+    # the same numbers in another memory layout / container / exact dtype
+    ctx.presentations("dscore", lambda o_, s_: call(m_.dscore, o_, s_), [obs, sim], D,
+                      case, np.random.default_rng(digest(obs, sim) % 2 ** 32), n=1)
     # member permutation, independently per forecast
     if m > 1:
         sp = np.array([rng.permutation(r) for r in sim])
@@ -264,6 +269,11 @@ def run_pit_case(ctx, case):
               "pit|sudo-flag", case, lambda: {"flag": np.asarray(sudo).tolist(),
                                               "want": want.tolist()})
     ctx.nontrivial("pit", obs, ens, rnd, cst, censor)
+    if not rnd:
+        ctx.presentations("pit", lambda o_, e_: call(m_.pit, o_, e_, random=False, cst=cst,
+                                                     censor=censor, kind=kind),
+                          [obs, ens], (pits, np.asarray(sudo)), case,
+                          np.random.default_rng(digest(obs, ens) % 2 ** 32), n=1)
 
 
 # --------------------------------------------------- uniformity statistics ----
@@ -324,6 +334,12 @@ def run_unif_case(ctx, case):
               lambda: {"a": [ast, apv], "b": [ast2, apv2]})
     if n >= 2:
         ctx.nontrivial("unif", u)
+    ctx.presentations("anderson_darling_test",
+                      lambda u_: call(m_.anderson_darling_test, u_), [u], (ast, apv), case,
+                      np.random.default_rng(digest(u) % 2 ** 32), n=1)
+    ctx.presentations("cramer_von_mises_test",
+                      lambda u_: call(m_.cramer_von_mises_test, u_), [u], (st, pv), case,
+                      np.random.default_rng(digest(u, 1) % 2 ** 32), n=1)
 
 
 def run_reject_case(ctx, case):
